@@ -640,3 +640,17 @@ fault("c06-gemini-local-ignores-port", "C06", "R06e", (GEM, "        elif (not e
 twin("c06-twin-local-demorgan", "C06", (HTTP, "        elif (not entry.gethost()) and (not entry.getport()):", "        elif not (entry.gethost() or entry.getport()):"))
 fault("c11-records-until-eof", "C11", "R11a", (DIR, "                    self.fileentries = pickle.load(fp)", "                    up = pickle.Unpickler(fp)\n                    self.fileentries = []\n                    while fp.peek(1):\n                        self.fileentries.append(up.load())"))
 fault("c03-mbox-size-set", "C03", "R03h", (MBOX, '                self.entry.setname("<no subject>")\n', '                self.entry.setname("<no subject>")\n            self.entry.size = len(message.as_string())\n'))
+
+# --- D32-D38 regressions
+fault("c08-dash-not-hidden-in-merge", "C08", "R08c", (UMN, 'if linkentry.gettype() in ("X", "-"):', 'if linkentry.gettype() == "X":'))
+twin("c08-twin-hide-types-or", "C08", (UMN, 'if linkentry.gettype() in ("X", "-"):', 'if linkentry.gettype() == "X" or linkentry.gettype() == "-":'))
+fault("c04-head-404-body", "C04", "R04c", (HTTP, '        if self.requestparts[0] == "HEAD":\n            return\n        self.wfile.write(\n            b\'<!DOCTYPE', '        self.wfile.write(\n            b\'<!DOCTYPE'))
+fault("c04-head-wap-error-body", "C04", "R04c", (WAP, '        if self.requestparts[0] == "HEAD":\n            return\n        wfile.write(wmlheader.encode())', '        wfile.write(wmlheader.encode())'))
+R1436 = "pygopherd/protocols/rfc1436.py"
+fault("c06-menu-port-own-for-other-host", "C06", "R06f", (R1436, "        defaultport = self.server.server_port if entry.gethost() is None else 70\n", "        defaultport = self.server.server_port\n"))
+fault("c06-url-type-none", "C06", "R06f", (GE, 'self.gettype("0"), self.getselector()', "self.gettype(), self.getselector()"))
+fault("c06-url-port-own", "C06", "R06f", (HTTP, "url = entry.geturl(self.server.server_name, 70)", "url = entry.geturl(self.server.server_name, self.server.server_port)"))
+twin("c06-twin-menu-port-ifelse", "C06", (R1436, "        defaultport = self.server.server_port if entry.gethost() is None else 70\n", "        if entry.gethost() is None:\n            defaultport = self.server.server_port\n        else:\n            defaultport = 70\n"))
+fault("c05-wap-prefix-no-boundary", "C05", "R05f", (WAP, '        if self.requestparts[1] == waptop or self.requestparts[1].startswith(\n            (waptop + "/", waptop + "?")\n        ):', "        if self.requestparts[1].startswith(waptop):"))
+fault("c05-wap-prefix-not-stripped", "C05", "R05f", (WAP, "            self.requestparts[1] = self.requestparts[1][len(waptop) :]\n", ""))
+twin("c05-twin-wap-prefix-partition", "C05", (WAP, '        if self.requestparts[1] == waptop or self.requestparts[1].startswith(\n            (waptop + "/", waptop + "?")\n        ):', '        rest = self.requestparts[1][len(waptop) :]\n        if self.requestparts[1].startswith(waptop) and rest[:1] in ("", "/", "?"):'))
